@@ -16,8 +16,8 @@ EXTENDS Naturals, Sequences, FiniteSets, TLC
 
 CONSTANTS NNames, NT
 
-Scopes == 1..5
-ScopeKind == <<"hetero", "hetero", "params", "enums", "bases">>
+Scopes == 1..6
+ScopeKind == <<"hetero", "hetero", "params", "enums", "bases", "handler">>
 Idents == 1..NNames
 BTypes == 1..NT
 FTypes == (NT + 1)..(2 * NT)
@@ -28,7 +28,7 @@ AllNames == 1..(NNames + NT)
 NameOfType(t) == NNames + t
 
 HeteroKinds == {"var", "field", "bitfield", "typedecl", "alias", "fundecl", "ptemplate", "stemplate"}
-TypesFor(kind) == CASE kind \in {"var", "field", "bitfield", "typedecl", "alias", "param", "base"} -> BTypes
+TypesFor(kind) == CASE kind \in {"var", "field", "bitfield", "typedecl", "alias", "param", "base", "ehparam"} -> BTypes
                     [] kind = "fundecl" -> FTypes
                     [] kind \in {"ptemplate", "stemplate"} -> QTypes
                     [] kind = "enumerator" -> {EnumT}
@@ -50,6 +50,8 @@ CanDeclare(s, kind, n, t) ==
         [] ScopeKind[s] = "params" -> kind = "param" /\ n \in Idents /\ \A i \in 1..Len(decls[s]) : decls[s][i].n # n
         [] ScopeKind[s] = "enums" -> kind = "enumerator" /\ n \in Idents /\ \A i \in 1..Len(decls[s]) : decls[s][i].n # n
         [] ScopeKind[s] = "bases" -> kind = "base" /\ n = NameOfType(t) /\ \A i \in 1..Len(decls[s]) : decls[s][i].n # n
+        \* the region of a handler binds exactly its exception parameter: one declaration, made with the handler
+        [] ScopeKind[s] = "handler" -> kind = "ehparam" /\ n \in Idents /\ Len(decls[s]) = 0
 
 Declare(s, kind, n, t) ==
    /\ CanDeclare(s, kind, n, t)
